@@ -73,7 +73,12 @@ def opsPhys : List String → Option (String × String)
     let rawOk := decide (absI (bi - r) ≤ 1)
     let physOk := decide (absI (ex p2 - ex p) < absI (ex s.scale))
     let m := s!"{f64Out p} {bi} {f64Out p2}"
-    some (m, if applicable && inRange && !(rawOk && physOk) then m ++ " ROUND-TRIP-BOUND-VIOLATED" else "-")
+    -- classification of a violated bound: the raw value is off by at most one and the physical error exceeds one
+    -- step by at most the rounding noise 2^-48 (2^32 |scale| + |offset|) (truncation of a quotient that noise left just below an integer)
+    let noise := rawOk && decide (2 ^ 48 * (absI (ex p2 - ex p) - absI (ex s.scale)) ≤
+      2 ^ 32 * absI (ex s.scale) + absI (ex s.offset))
+    some (m, if applicable && inRange && !(rawOk && physOk) then
+        m ++ " ROUND-TRIP-BOUND-VIOLATED kind=" ++ (if noise then "full-step-by-truncation" else "gross") else "-")
   | ["f64op", op, a, b] => do
     let a ← hex16? a; let b ← hex16? b
     let r := match op with
